@@ -391,3 +391,154 @@ Theorem C02_parse_render_frac_DEU : forall k comma d o df cy loc n0 n1 ig,
   = OutOk (expected_dt (TDT DEU JSpace (TFrac k comma) ONone) d df) ZNaive 0 false [].
 Proof. exact parse_render_frac_DEU. Qed.
 Print Assumptions C02_parse_render_frac_DEU.
+
+(* ---- numeric UTC offsets (+HH:MM, +HH, +HHMM; either sign) after NON-ISO date-times (rd builder;
+   per-case files parse/RenderXOffN_*.v, RenderXOffD_*.v, RenderXOffC_*.v, collected in RenderXOffAll.v /
+   RenderXOffAllC.v).  zone_expected t o ig = if ig then ZNaive else zone_of_off (expected offset). *)
+From V Require Import parse.RenderXOffAll parse.RenderXOffAllC.
+
+(* DD Mon YYYY / DD Month YYYY + space + HH:MM[:SS] + offset; guard 100 <= year (F-C02-padyear) *)
+Theorem C02_parse_render_name_offset : forall f tf ofm d o df cy loc n0 n1 yf ig,
+  In f x_name_dforms -> In tf x_tforms -> In ofm x_oforms ->
+  valid_dt d = true -> valid_dt df = true -> 100 <= d_y d -> wf_off o = true -> smem utc_name loc = false ->
+  parse (opts_df0 yf ig df cy loc n0 n1) (render (TDT f JSpace tf ofm) d o)
+  = OutOk (expected_dt (TDT f JSpace tf ofm) d df) (zone_expected (TDT f JSpace tf ofm) o ig) 0 false [].
+Proof. exact parse_render_name_offset_lemma. Qed.
+Print Assumptions C02_parse_render_name_offset.
+
+(* Mon DD, YYYY / Month DD, YYYY + space + HH:MM[:SS] + offset; guard 100 <= year *)
+Theorem C02_parse_render_comma_offset : forall f tf ofm d o df cy loc n0 n1 yf ig,
+  In f x_comma_dforms -> In tf x_tforms -> In ofm x_oforms ->
+  valid_dt d = true -> valid_dt df = true -> 100 <= d_y d -> wf_off o = true -> smem utc_name loc = false ->
+  parse (opts_df0 yf ig df cy loc n0 n1) (render (TDT f JSpace tf ofm) d o)
+  = OutOk (expected_dt (TDT f JSpace tf ofm) d df) (zone_expected (TDT f JSpace tf ofm) o ig) 0 false [].
+Proof. exact parse_render_comma_offset_lemma. Qed.
+Print Assumptions C02_parse_render_comma_offset.
+
+(* MM/DD/YYYY {T, space} HH:MM[:SS] + offset; dayfirst = yearfirst = False *)
+Theorem C02_parse_render_us_offset : forall j tf ofm d o df cy loc n0 n1 ig,
+  In j plain_joiners -> In tf x_tforms -> In ofm x_oforms ->
+  valid_dt d = true -> valid_dt df = true -> wf_off o = true -> smem utc_name loc = false ->
+  parse (opts_df0 false ig df cy loc n0 n1) (render (TDT DUS j tf ofm) d o)
+  = OutOk (expected_dt (TDT DUS j tf ofm) d df) (zone_expected (TDT DUS j tf ofm) o ig) 0 false [].
+Proof. exact parse_render_us_offset_lemma. Qed.
+Print Assumptions C02_parse_render_us_offset.
+
+(* YYYY/MM/DD space HH:MM[:SS] + offset; yearfirst arbitrary *)
+Theorem C02_parse_render_slash_offset : forall tf ofm d o df cy loc n0 n1 yf ig,
+  In tf x_tforms -> In ofm x_oforms ->
+  valid_dt d = true -> valid_dt df = true -> wf_off o = true -> smem utc_name loc = false ->
+  parse (opts_df0 yf ig df cy loc n0 n1) (render (TDT DSlashYMD JSpace tf ofm) d o)
+  = OutOk (expected_dt (TDT DSlashYMD JSpace tf ofm) d df) (zone_expected (TDT DSlashYMD JSpace tf ofm) o ig) 0 false [].
+Proof. exact parse_render_slash_offset_lemma. Qed.
+Print Assumptions C02_parse_render_slash_offset.
+
+(* ---- helper rdalg (round 4): template theorems proved in coq/parse/RenderX*.v, LexSegX.v ---- *)
+From V Require Import parse.LexSeg parse.LexSeg2 parse.RenderTac parse.WordFacts parse.Render12Defs parse.RenderXTimeOff_THMS parse.RenderXTimeOff_THM parse.RenderXTimeOff4 parse.RenderXTimeUtc parse.RenderX12_DUS_T12HM parse.RenderX12_DUS_T12HMS parse.RenderX12_DSlashYMD_T12HM parse.RenderX12_DSlashYMD_T12HMS parse.RenderX12Comma_DMonthDY_T12HM_sp parse.RenderX12Comma_DMonthDY_T12HM_nosp parse.RenderX12Comma_DMonDY_T12HMS_sp.
+
+Theorem C02_parse_render_time_offset_THMS : forall ofm d o df cy loc n0 n1 yf ig,
+  In ofm zone_oforms ->
+  valid_dt d = true -> valid_dt df = true -> wf_off o = true -> smem utc_name loc = false ->
+  parse (opts_df0 yf ig df cy loc n0 n1) (render (TDT DNone JNone THMS ofm) d o)
+  = OutOk (expected_dt (TDT DNone JNone THMS ofm) d df)
+          (if ig then ZNaive else
+           match expected_off (TDT DNone JNone THMS ofm) o with Some v => zone_of_off v | None => ZNaive end)
+          0 false [].
+Proof. exact parse_render_time_offset_THMS. Qed.
+Print Assumptions C02_parse_render_time_offset_THMS.
+
+Theorem C02_parse_render_time_offset_THM : forall ofm d o df cy loc n0 n1 yf ig,
+  In ofm zone_oforms ->
+  valid_dt d = true -> valid_dt df = true -> wf_off o = true -> smem utc_name loc = false ->
+  parse (opts_df0 yf ig df cy loc n0 n1) (render (TDT DNone JNone THM ofm) d o)
+  = OutOk (expected_dt (TDT DNone JNone THM ofm) d df)
+          (if ig then ZNaive else
+           match expected_off (TDT DNone JNone THM ofm) o with Some v => zone_of_off v | None => ZNaive end)
+          0 false [].
+Proof. exact parse_render_time_offset_THM. Qed.
+Print Assumptions C02_parse_render_time_offset_THM.
+
+Theorem C02_parse_render_time_offset4 : forall tf d o df cy loc n0 n1 yf ig,
+  In tf plain_tforms ->
+  valid_dt d = true -> valid_dt df = true -> wf_off o = true -> smem utc_name loc = false ->
+  parse (opts_df0 yf ig df cy loc n0 n1) (render (TDT DNone JNone tf OHHMM) d o)
+  = OutOk (expected_dt (TDT DNone JNone tf OHHMM) d df)
+          (if ig then ZNaive else zone_of_off (off_secs o)) 0 false [].
+Proof. exact parse_render_time_offset4. Qed.
+Print Assumptions C02_parse_render_time_offset4.
+
+Theorem C02_parse_render_time_utc_OZ : forall tf d o df cy loc n0 n1 yf ig,
+  In tf plain_tforms ->
+  valid_dt d = true -> valid_dt df = true ->
+  smem [85; 84; 67] loc = false -> smem [71; 77; 84] loc = false ->
+  parse (opts_df0 yf ig df cy loc n0 n1) (render (TDT DNone JNone tf OZ) d o)
+  = OutOk (expected_dt (TDT DNone JNone tf OZ) d df) (if ig then ZNaive else ZUTC) 0 false [].
+Proof. exact parse_render_time_utc_OZ. Qed.
+Print Assumptions C02_parse_render_time_utc_OZ.
+
+Theorem C02_parse_render_time_utc_OUTC : forall tf d o df cy loc n0 n1 yf ig,
+  In tf plain_tforms ->
+  valid_dt d = true -> valid_dt df = true ->
+  smem [85; 84; 67] loc = false -> smem [71; 77; 84] loc = false ->
+  parse (opts_df0 yf ig df cy loc n0 n1) (render (TDT DNone JNone tf OUTC) d o)
+  = OutOk (expected_dt (TDT DNone JNone tf OUTC) d df) (if ig then ZNaive else ZUTC) 0 false [].
+Proof. exact parse_render_time_utc_OUTC. Qed.
+Print Assumptions C02_parse_render_time_utc_OUTC.
+
+Theorem C02_parse_render_time_utc_OGMT : forall tf d o df cy loc n0 n1 yf ig,
+  In tf plain_tforms ->
+  valid_dt d = true -> valid_dt df = true ->
+  smem [85; 84; 67] loc = false -> smem [71; 77; 84] loc = false ->
+  parse (opts_df0 yf ig df cy loc n0 n1) (render (TDT DNone JNone tf OGMT) d o)
+  = OutOk (expected_dt (TDT DNone JNone tf OGMT) d df) (if ig then ZNaive else ZUTC) 0 false [].
+Proof. exact parse_render_time_utc_OGMT. Qed.
+Print Assumptions C02_parse_render_time_utc_OGMT.
+
+Theorem C02_parse_render_12h_DUS_T12HM : forall spaced d o df cy loc n0 n1 ig,
+  valid_dt d = true -> valid_dt df = true ->
+  parse (opts_df0 false ig df cy loc n0 n1) (render (TDT DUS JSpace (T12HM spaced) ONone) d o)
+  = OutOk (expected_dt (TDT DUS JSpace (T12HM spaced) ONone) d df) ZNaive 0 false [].
+Proof. exact parse_render_12h_DUS_T12HM. Qed.
+Print Assumptions C02_parse_render_12h_DUS_T12HM.
+
+Theorem C02_parse_render_12h_DUS_T12HMS : forall spaced d o df cy loc n0 n1 ig,
+  valid_dt d = true -> valid_dt df = true ->
+  parse (opts_df0 false ig df cy loc n0 n1) (render (TDT DUS JSpace (T12HMS spaced) ONone) d o)
+  = OutOk (expected_dt (TDT DUS JSpace (T12HMS spaced) ONone) d df) ZNaive 0 false [].
+Proof. exact parse_render_12h_DUS_T12HMS. Qed.
+Print Assumptions C02_parse_render_12h_DUS_T12HMS.
+
+Theorem C02_parse_render_12h_DSlashYMD_T12HM : forall spaced d o df cy loc n0 n1 yf ig,
+  valid_dt d = true -> valid_dt df = true ->
+  parse (opts_df0 yf ig df cy loc n0 n1) (render (TDT DSlashYMD JSpace (T12HM spaced) ONone) d o)
+  = OutOk (expected_dt (TDT DSlashYMD JSpace (T12HM spaced) ONone) d df) ZNaive 0 false [].
+Proof. exact parse_render_12h_DSlashYMD_T12HM. Qed.
+Print Assumptions C02_parse_render_12h_DSlashYMD_T12HM.
+
+Theorem C02_parse_render_12h_DSlashYMD_T12HMS : forall spaced d o df cy loc n0 n1 yf ig,
+  valid_dt d = true -> valid_dt df = true ->
+  parse (opts_df0 yf ig df cy loc n0 n1) (render (TDT DSlashYMD JSpace (T12HMS spaced) ONone) d o)
+  = OutOk (expected_dt (TDT DSlashYMD JSpace (T12HMS spaced) ONone) d df) ZNaive 0 false [].
+Proof. exact parse_render_12h_DSlashYMD_T12HMS. Qed.
+Print Assumptions C02_parse_render_12h_DSlashYMD_T12HMS.
+
+Theorem C02_parse_render_12h_DMonthDY_T12HM_sp : forall d o df cy loc n0 n1 yf ig,
+  valid_dt d = true -> valid_dt df = true -> 100 <= d_y d ->
+  parse (opts_df0 yf ig df cy loc n0 n1) (render (TDT DMonthDY JSpace (T12HM true) ONone) d o)
+  = OutOk (expected_dt (TDT DMonthDY JSpace (T12HM true) ONone) d df) ZNaive 0 false [].
+Proof. exact parse_render_12h_DMonthDY_T12HM_sp. Qed.
+Print Assumptions C02_parse_render_12h_DMonthDY_T12HM_sp.
+
+Theorem C02_parse_render_12h_DMonthDY_T12HM_nosp : forall d o df cy loc n0 n1 yf ig,
+  valid_dt d = true -> valid_dt df = true -> 100 <= d_y d ->
+  parse (opts_df0 yf ig df cy loc n0 n1) (render (TDT DMonthDY JSpace (T12HM false) ONone) d o)
+  = OutOk (expected_dt (TDT DMonthDY JSpace (T12HM false) ONone) d df) ZNaive 0 false [].
+Proof. exact parse_render_12h_DMonthDY_T12HM_nosp. Qed.
+Print Assumptions C02_parse_render_12h_DMonthDY_T12HM_nosp.
+
+Theorem C02_parse_render_12h_DMonDY_T12HMS_sp : forall d o df cy loc n0 n1 yf ig,
+  valid_dt d = true -> valid_dt df = true -> 100 <= d_y d ->
+  parse (opts_df0 yf ig df cy loc n0 n1) (render (TDT DMonDY JSpace (T12HMS true) ONone) d o)
+  = OutOk (expected_dt (TDT DMonDY JSpace (T12HMS true) ONone) d df) ZNaive 0 false [].
+Proof. exact parse_render_12h_DMonDY_T12HMS_sp. Qed.
+Print Assumptions C02_parse_render_12h_DMonDY_T12HMS_sp.
